@@ -127,6 +127,20 @@ def check_case(ctx, model, case, run_oracle=False):
     ctx.count(f"stream:{case.get('stream', 'corpus')}")
     ctx.count(f"n={n}")
     trivial = bool(np.allclose(p_model, 0) or np.allclose(p_model, v))
+    # which kind of output the model produced (branches hit): all zero / unchanged / some entries zeroed / generic
+    if np.allclose(p_model, 0):
+        kind = "all-zero"
+    elif np.allclose(p_model, v):
+        kind = "unchanged"
+    elif np.any((np.abs(p_model) == 0) & (np.abs(v) > 0)):
+        kind = "some-entries-zeroed"
+    else:
+        kind = "shrunk"
+    ctx.count(f"branch:{fam}:{kind}")
+    if case.get("bmode"):
+        ctx.count(f"boundary:{fam}:{case['bmode']}")
+    if case["params"].get("rescale"):
+        ctx.count("loss-rescaled:" + "-".join(k for k, _ in case["params"]["rescale"]))
     key = _key(case) if (not trivial or case.get("stream") == "boundary") else None
     ctx.case(_desc(case), key, sample_every=97)
     # decision margin: discard near-ties of the discontinuous maps, keep exact ties
